@@ -599,8 +599,11 @@ mod ir_builder {
                     (ty, ret)
                 }
 
+            // An ASM op ends at the end of its line: ops without an immediate and without
+            // metadata have no other terminator, so their name and register arguments must
+            // not consume newlines.
             rule asm_op() -> IrAstAsmOp
-                = name:id_id() args:asm_op_arg()* imm:asm_op_arg_imm()? meta_idx:comma_metadata_idx()? {
+                = name:asm_id() args:asm_op_arg()* imm:asm_op_arg_imm()? meta_idx:comma_metadata_idx()? _ {
                     IrAstAsmOp {
                         name,
                         args,
@@ -610,8 +613,13 @@ mod ir_builder {
                 }
 
             rule asm_op_arg() -> Ident
-                = !asm_op_arg_imm() arg:id_id() {
+                = !asm_op_arg_imm() arg:asm_id() {
                     arg
+                }
+
+            rule asm_id() -> Ident
+                = !(ast_ty() (" " "\n")) id:$(id_char0() id_char()*) space()* {
+                    Ident::new(Span::new(id.into(), 0, id.len(), None).unwrap())
                 }
 
             rule asm_op_arg_imm() -> Ident
